@@ -215,8 +215,8 @@ pub fn known_finding(prop: &str, r: &Req, imp: &str, spec: &str) -> Option<Strin
 }
 
 /// additional C08 request streams contributed by merged properties (aggregations, mapping)
-pub fn c08_extra(_tier: &str, _rng: &mut Rng) -> Vec<String> {
-    vec![]
+pub fn c08_extra(tier: &str, _rng: &mut Rng) -> Vec<String> {
+    c13::encoding_cells(if tier == "thorough" { 4 } else { 3 })
 }
 
 /// property-specific model-vs-spec comparison (None = generic exact / numeric token comparison)
